@@ -30,13 +30,10 @@ def validStr : Valid → String | .uneval => "U" | .tru => "T" | .fls => "F"
 def runOne (t : VTree) (prev : List (Nat × Valid)) : (Json × Bool) × List (Nat × Valid) :=
   let r := validate t
   let s := Spec.specValidate t
-  let look (id : Nat) : Valid :=
-    match r.valids.find? (·.1 == id) with
-    | some p => p.2
-    | none => ((prev.find? (·.1 == id)).map (·.2)).getD .uneval
-  let now := (preorder t).map (fun id => (id, look id))
+  let prevF : Nat → Valid := fun id => ((prev.find? (·.1 == id)).map (·.2)).getD .uneval
+  let now := (preorder t).map (fun id => (id, validNow prevF t id))
   let valids := now.map (fun p => Json.arr #[ofNat p.1, Json.str (validStr p.2)])
-  let allValid := now.all (fun p => p.2.truthy)
+  let allValid := allValidNow prevF t
   let specAgrees := r.ret == s.ret && r.log == s.log &&
     r.valids.map (fun p => (p.1, validStr p.2)) == s.valids.map (fun p => (p.1, validStr p.2))
   ((obj [("ret", Json.bool r.ret), ("valids", Json.arr valids.toArray),
